@@ -241,6 +241,16 @@ def gen_int_guards(rng, per_type=26, types=None):
             d.default_arg = default_arg
             decls.append(d)
         n += 1
+    # a predicate that is only defined on what the bound written before it lets through (never called on 0 by a
+    # constructor that checks the rules one after the other)
+    for ty in ("i32", "u8", "i64", "i8"):
+        for items, b in (([[tid("greater"), EQ, tx(lit_int(0))], [tid("predicate"), EQ, tfn(2, "p", "p")]], [0, 0]),
+                         ([[tid("greater_or_equal"), EQ, tx(lit_int(1))], [tid("predicate"), EQ, tfn(2, "c00", "p")], [tid("less"), EQ, tx(lit_int(100))]], [1, 100])):
+            d = Decl("d%d" % len(decls), ty, attr([block("validate", items), derive_block(["Debug", "Clone", "PartialEq", "TryFrom", "FromStr"])]), env=[],
+                     tags={"guard", "int"})
+            d.bounds = b
+            d.default_arg = None
+            decls.append(d)
     return decls
 
 
@@ -960,6 +970,28 @@ ARB_FLOAT_PAIRS = [("0.0", "1.0"), ("-5.5", "1e3"), ("0.0", "10.0"), ("64.0", "6
                    # large magnitude, same sign (the distance does not overflow, base value + bound may)
                    ("3.0e38", "3.2e38"), ("-3.2e38", "-3.0e38")]
 ARB_FLOAT_PAIRS_F64 = [("1.7e308", "1.75e308"), ("-1.75e308", "-1.7e308"), ("-1e308", "1e308")]
+
+
+def gen_arb_anys(rng, tier, start=0):
+    """other-type newtypes deriving Arbitrary (only allowed without validation): the sanitizer is the whole guard"""
+    decls = []
+    for k_, (san, generic) in enumerate(((0, False), (1, False), (2, False), (None, False), (0, True), (1, True))):
+        blocks = []
+        if san is not None:
+            blocks.append(block("sanitize", [[tid("with"), EQ, tfn(san, "p" if not generic else "c00", "s")]]))
+        blocks.append(derive_block(["Debug", "Clone", "PartialEq", "Arbitrary"]))
+        if generic:
+            d = Decl("aa%d" % (start + len(decls)), "Vec<T>", attr(blocks), tags={"arb", "any", "generic"}, name="W", generics=[("T", [])])
+            d.inst = "<i32>"
+            d.inner_concrete = "Vec<i32>"
+        else:
+            d = Decl("aa%d" % (start + len(decls)), "Vec<i32>", attr(blocks), tags={"arb", "any"})
+        d.bounds = []
+        d.default_arg = None
+        d.sanitized = False
+        d.has_san = san is not None
+        decls.append(d)
+    return decls
 
 
 def gen_arb_floats(rng, tier, start=0):
